@@ -29,12 +29,14 @@ Record variant := mkV {
   d3 : bool;   (* DHCPv4 expiry take-over releases the registry lease by address *)
   d4 : bool;   (* a DISCOVER/REQUEST whose address resolution failed is answered from the DHCPv4 lease table *)
   d5 : bool;   (* AAA addresses outside every pool are not recorded *)
+  d7 : bool;   (* the unresolved answer dereferences a nil pool (panic) when the lease address is in no provider
+                  pool network; fixed: error, no answer *)
   d6 : bool    (* component level only (used by the stage-B event mapping in ocaml/C02_run.ml, not by [step]):
                   a REQUEST that waited for AAA / session creation is ACKed by forwardPendingDHCPv4 /
                   forwardLatePendingPackets without handleAck, so the session does not record the address *)
 }.
-Definition Repaired : variant := mkV false false false false false false.
-Definition Defective : variant := mkV true true true true true true.
+Definition Repaired : variant := mkV false false false false false false false.
+Definition Defective : variant := mkV true true true true true true true.
 Inductive fam := F4 | F6 | FD.
 Definition fam_eqb (a b : fam) : bool :=
   match a, b with F4, F4 | F6, F6 | FD, FD => true | _, _ => false end.
@@ -490,11 +492,12 @@ Definition unresolved (v : variant) (r : reg) (pr : prov) (s0 : sess) (isreq : b
                           then if prov_net_has r (l_ip l)
                                then Some (mkProv (lset id (mkLease (l_ip l) (l_mac l) (l_sid l) (l_pool l) false) (objs pr))
                                                  (by_mac pr) (by_ip pr) (next_obj pr), Some (l_ip l))
-                               else Some (pr, None)
+                               else (if d7 v then Some (pr, None) else None)
                           else None
               | None => None
               end
-            else Some (pr, if prov_net_has r (l_ip l) then Some (l_ip l) else None)
+            else if prov_net_has r (l_ip l) then Some (pr, Some (l_ip l))
+                 else (if d7 v then Some (pr, None) else None)
         | None => None
         end
     | None => None
